@@ -46,6 +46,7 @@ def event_pops(e):
     if t == 'DiscretizedRateChanges':
         return [p for k in e['points'] for p in k.split('>')]
     if t == 'ExponentialPopSizeChanges': return list(e['initial_size'])
+    if t == 'ExponentialRateChanges': return [p for k in e['initial_rate'] for p in k.split('>')]
     raise ValueError(t)
 
 
@@ -114,6 +115,21 @@ def event_coq(e, pops):
         for k, pts in e['points'].items():
             st = e['start_time'][k] if isinstance(e['start_time'], dict) else e['start_time']
             trs.append(traj_coq(k, pts, st, e.get('end_time'), e['step_size'], pops))
+        return '(EDiscretized ' + C.coqlist(trs) + ')'
+    if t in ('ExponentialPopSizeChanges', 'ExponentialRateChanges'):
+        # trajectory x0 * exp(-g (t - t0)) per key: passed to the model as a table on the dyadic grid k/64
+        # (epoch boundaries of the generated demographies are dyadic, so the table is hit exactly); the table
+        # is computed here with the documented formula, independently of the implementation
+        import numpy as np
+        init = e['initial_size'] if t == 'ExponentialPopSizeChanges' else e['initial_rate']
+        trs = []
+        for k in init:
+            g = e['growth_rate'][k] if isinstance(e['growth_rate'], dict) else e['growth_rate']
+            t0 = e['start_time'][k] if isinstance(e['start_time'], dict) else e['start_time']
+            en = e.get('end_time')
+            en_k = en[k] if isinstance(en, dict) else en
+            pts = [(j / 64, float(init[k] * np.exp(-g * (j / 64 - t0)))) for j in range(0, 64 * 6 + 1)]
+            trs.append(traj_coq(k, pts, t0, en_k, e['step_size'], pops))
         return '(EDiscretized ' + C.coqlist(trs) + ')'
     raise ValueError(t)
 
